@@ -22,6 +22,10 @@ def run(tier, a=None):
     res = common.Result("C10", tier)
     cfgs = select_cfgs(tier, a)
     runner.run_families(res, cfgs, ["floatarith"], type_filter(a))
+    # the same instances compiled with -frounding-math (what AVEL's own test build uses with GCC): nothing is
+    # folded under the assumption of the default rounding mode, so a form that is only right when rounding to
+    # nearest (e.g. unary minus written as -0.0 - x) stays visible
+    runner.run_families(res, cfgs, ["floatarith"], type_filter(a), strictfp=True)
     res.trusted = ["clang 14 front end and -O2 pipeline preserve the meaning of UB-free executions",
                    "LLVM LangRef semantics of the IR instructions; Intel SDM semantics of the x86 intrinsics as modelled in spec/isa.py",
                    "the term normaliser, the exact IEEE evaluator (lib/fpeval.py) and the abstract interpreter (lib/absint.py, self-tested against the concrete evaluator)"]
